@@ -3,7 +3,8 @@
 // directory first, then under each include path; relative includes; one file reached through
 // different spellings). Every case is a tree (directories, files with a marker package and an
 // `include:` field or undecodable content), a working directory, include paths and a request.
-// Observed: outcome class (a load that does not come back within the deadline is a hang) and,
+// Since fix 43ae291 a resolved path met again is an error; the model (load_config) follows.
+// Observed: outcome class (a load that does not come back is a hang: the repaired finding C15-F6) and,
 // when it returns, contents.packages of the merged configuration = the markers of the files
 // loaded, innermost first. Each case runs in a child process with its own working directory
 // (os.Chdir is process-wide, and a hung load keeps growing its stack until the process dies).
